@@ -4,7 +4,7 @@ PROP = dict(
     go='c10', n_quick=240, n_thorough=2400,
     coq_header=LC_HEADER,
     case_type='C10.case', verdict='C10.verdict',
-    rule='for each sampled (world, command) the fault-free run is counted and the command re-run with the k-th mutating operation failing, k sampled incl. first and last; non-trivial: the fault position was reached Every 4th case runs the real stagemaker (-list system/installed/stage/-files, -generate with none/gzip/bzip2/xz) on a generated build root with an output that fails: /dev/full, a file-size limit of k*512 bytes (ulimit -f) below and above the size of the complete output, a compressor that exits 3; the exit status is compared with the StageOut model.',
+    rule='for each sampled (world, command) the fault-free run is counted and the command re-run with the k-th mutating operation failing, k sampled incl. first and last; non-trivial: the fault position was reached Every 4th case runs the real stagemaker (-list system/installed/stage/-files, -generate with none/gzip/bzip2/xz) on a generated build root with an output that fails: /dev/full, a file-size limit of k*512 bytes (ulimit -f) below and above the size of the complete output, a compressor that exits 3; the exit status is compared with the StageOut model; in two of three runs to a file the -o path holds random bytes already (empty .. several times the output) and after exit 0 the file must be exactly as long as the complete output (text lists and the uncompressed archive; Model/OutFile.v).',
     explanation='per step Coq evaluates: model step = observed step (result class, operation log, file tree, kernel table, '
                 'layer states) from the observed world before it, and the C10 predicate on the observed worlds',
     assumptions=['in-process runs use a simulated kernel mount table (harness/simk = coq/Model/Kernel.v); the file tree is real',
